@@ -56,6 +56,16 @@ let dispatch cmd args =
       cmd_rbsp (parse_src (arg args 0)) (n_of_string (arg args 1)) (n_of_string (arg args 2))
         (List.map parse_byteop (nonempty (split ',' (arg args 3))))
   | "refnal" -> cmd_refnal (parse_src (arg args 0)) (List.map parse_byteop (nonempty (split ',' (arg args 1))))
+  | "annexb" ->
+      cmd_annexb (List.map (fun op -> if op = "r" then AReset else if op = "n" then ANew else APush (unhex (after op "p"))) (nonempty (split ',' (arg args 0))))
+  | "accum" ->
+      let frs = List.map (fun f ->
+        let i = String.index f ';' in
+        let bufs = nonempty (split '/' (String.sub f 0 i)) in
+        (List.map unhex bufs, String.sub f (i + 1) (String.length f - i - 1) = "1"))
+        (List.filter (fun s -> s <> "-") (nonempty (split ',' (arg args 0)))) in
+      let pol = List.map (fun c -> if c = 'I' then Ignore else Buffer) (List.of_seq (String.to_seq (arg args 1))) in
+      cmd_accum frs pol
   | "decode_nal" -> cmd_decode_nal (unhex (arg args 0))
   | _ -> Modelrun2.dispatch cmd args
 
@@ -65,7 +75,7 @@ let () =
       let line = input_line stdin in
       match nonempty (String.split_on_char ' ' line) with
       | id :: cmd :: args ->
-          let ans = try dispatch cmd args with Stack_overflow -> "MODEL-STACK-OVERFLOW" in
+          let ans = try dispatch cmd args with Stack_overflow -> "MODEL-STACK-OVERFLOW" | e -> "MODEL-EXN:" ^ Printexc.to_string e in
           print_string id; print_char ' '; print_string ans; print_newline ()
       | _ -> ()
     done
